@@ -185,6 +185,13 @@ fn rt_case(da: u8, sa: u8, dsap: Option<u8>, ssap: Option<u8>, fcb: u8, pdu: &[u
     if n != want.len() || buf[..n] != want[..] { return Err(format!("serialize wrote {n} bytes [{}], frame format says [{}]", hex(&buf[..n.min(300)]), hex(&want))); }
     if h.telegram_len(pdu.len()) != want.len() { return Err(format!("telegram_len {} != {}", h.telegram_len(pdu.len()), want.len())); }
     if buf[n..].iter().any(|x| *x != 0xEE) { return Err("serialize wrote behind the frame".into()); }
+    // the window handed to the closure is zero-filled whatever the buffer held before (the DP master's Clear-state
+    // Data_Exchange request relies on it): a closure that writes nothing yields the all-zero PDU
+    let mut dirty = [0xA5u8; 300];
+    let zeros = vec![0u8; pdu.len()];
+    let wantz = ref_encode(da, sa, dsap, ssap, fcb, &zeros);
+    let nz = h.serialize(&mut dirty, pdu.len(), |_b| ());
+    if nz != wantz.len() || dirty[..nz] != wantz[..] { return Err(format!("serialize into a used buffer with a closure that writes nothing gave [{}], the all-zero PDU frame is [{}]", hex(&dirty[..nz.min(300)]), hex(&wantz))); }
     match Telegram::deserialize(&buf[..n + 3]) {
         Some(Ok((Telegram::Data(t), m))) if m == n && t.h == h && t.pdu == pdu => Ok(()),
         other => Err(format!("decode(encode(t)) = {other:?}, expected the telegram itself consuming {n} bytes")),
